@@ -345,6 +345,18 @@ Proof.
   now rewrite uuid_text_shape, ext_ok_ext.
 Qed.
 
+(* whatever the prefix length, the key carries the whole 36-character UUID text and
+   the whole extension after the prefix: nothing is clamped or trimmed *)
+Lemma key_whole_uuid b p x e :
+  skipn (length (eff_prefix b p)) (key b p x e) = uuid_text (mask e) ++ ext b x /\
+  firstn (length (eff_prefix b p)) (key b p x e) = eff_prefix b p /\
+  (wf_entropy e = true -> length (key b p x e) = (length (eff_prefix b p) + 36 + length (ext b x))%nat).
+Proof.
+  unfold key. split; [apply skipn_app_exact; reflexivity|]. split; [apply firstn_app_exact; reflexivity|].
+  intro W. rewrite !app_length, uuid_text_length; [lia|].
+  rewrite mask_length. now apply wf_entropy_spec in W.
+Qed.
+
 (* ---- sort ------------------------------------------------------------------- *)
 Lemma insert_perm k l : Permutation (insert k l) (k :: l).
 Proof.
